@@ -29,6 +29,22 @@ class Budget(Exception):
     pass
 
 
+def _substitute_cached(path, t):
+    """z3.substitute(t, *path._subs): the same Z3_substitute call, with the ctypes arrays built once per
+    substitution list instead of once per call and without z3py's per-call argument assertions (every pair is
+    (Bool fact of the path condition, BoolVal), so they hold by construction).  Speed only."""
+    arr = getattr(path, '_subs_arrays', None)
+    if arr is None or arr[0] is not path._subs:
+        num = len(path._subs)
+        _from = (z3.Ast * num)()
+        _to = (z3.Ast * num)()
+        for i, (a, b) in enumerate(path._subs):
+            _from[i] = a.as_ast()
+            _to[i] = b.as_ast()
+        arr = path._subs_arrays = (path._subs, num, _from, _to)
+    return z3.z3._to_expr_ref(z3.Z3_substitute(t.ctx.ref(), t.as_ast(), arr[1], arr[2], arr[3]), t.ctx)
+
+
 class Path:
     """One execution of the contract under a prefix of branch decisions."""
 
@@ -69,8 +85,12 @@ class Path:
             return z3.simplify(t)
         n = len(self.pc)
         if getattr(self, '_subs_n', -1) != n:
+            # pc is append-only: only the entries added since the last call are flattened; the resulting list is the
+            # same, in the same order, as flattening the whole pc (newest entry first)
+            old_n = getattr(self, '_subs_n', -1)
+            old_subs = self._subs if 0 <= old_n < n else []
             subs = []
-            stack = list(self.pc)
+            stack = list(self.pc[old_n:]) if 0 <= old_n < n else list(self.pc)
             while stack:
                 a = stack.pop()
                 if z3.is_and(a):
@@ -79,11 +99,11 @@ class Path:
                     subs.append((a.arg(0), z3.BoolVal(False)))
                 elif not z3.is_true(a):
                     subs.append((a, z3.BoolVal(True)))
-            self._subs = subs
+            self._subs = subs + old_subs
             self._subs_n = n
         if not self._subs:
             return z3.simplify(t)
-        return z3.simplify(z3.substitute(z3.simplify(t), *self._subs))
+        return z3.simplify(_substitute_cached(self, z3.simplify(t)))
 
     def check(self, *extra, timeout_ms=None):
         """Satisfiability of pc + extra.
